@@ -264,7 +264,12 @@ impl<'a> StagesBuilder<'a> {
                 for system in group {
                     let system: &SystemId = system;
 
-                    let mut name = (*map.get(system).unwrap()).to_string();
+                    // Systems registered with the empty name are not in the
+                    // map; print a placeholder instead of panicking.
+                    let mut name = match map.get(system) {
+                        Some(name) => (*name).to_string(),
+                        None => format!("unnamed_system_{}", system.0),
+                    };
                     name = name.replace([' ', '-', '/'], "_");
 
                     writeln!(f, "\t\t\t{},", name)?;
